@@ -208,7 +208,15 @@ func c05Enumerate(e *fw.Env, yield func(in c05Input)) {
 	stills := stillCorpus(e.Seed, e.Repo)
 	anims := animCorpus(e.Seed)
 	seeds := append(append([]namedFile{}, stills...), anims...)
-	seeds = append(seeds, genCorpus(e.Seed)...) // valid VP8L streams no encoder emits
+	have := map[string]bool{}
+	for _, f := range seeds {
+		have[f.Name] = true
+	}
+	for _, f := range genCorpus(e.Seed) { // valid VP8L streams no encoder emits
+		if !have[f.Name] {
+			seeds = append(seeds, f)
+		}
+	}
 	mut := func(name string, data []byte) { yield(c05Input{name, data}) }
 	// (f) skeleton strings
 	sizes := []uint32{0, 1, 2, 3, 4, 7, 8, 9, 10, 12, 16, 1 << 14, 0x7fffffff, 0xfffffff6, 0xffffffff}
